@@ -18,7 +18,8 @@ Open Scope list_scope.
 (* strict decoding (decode_errors=None) *)
 Definition o_strict (e : ev) : list string :=
   match e with
-  | Rd c => if String.eqb c "strptime" then ["ValueError"] else []
+  | Rd c => if String.eqb c "strptime" then ["ValueError"; "OverflowError"]
+            else []
   | Call f => if String.eqb f "decode_line" then ["UnicodeDecodeError"] else []
   | _ => []
   end.
@@ -27,7 +28,8 @@ Definition o_strict (e : ev) : list string :=
    line never raises *)
 Definition o_lenient (e : ev) : list string :=
   match e with
-  | Rd c => if String.eqb c "strptime" then ["ValueError"] else []
+  | Rd c => if String.eqb c "strptime" then ["ValueError"; "OverflowError"]
+            else []
   | _ => []
   end.
 
